@@ -9,6 +9,7 @@ equal on the copy, protected part changed) is compared with `Model/Api.lean` par
 from __future__ import annotations
 
 import copy
+import json
 import os
 import shutil
 import tempfile
@@ -222,9 +223,12 @@ class Harness:
         return d
 
 
-def run_history(chk, E, key, ops, case_seed, tmp):
-    """returns (per-step implementation pattern, case json)"""
+def run_history(chk, E, key, ops, case_seed, tmp, edge=None):
+    """returns (per-step implementation pattern, case json); `edge` = [parameter, value]: every load reads a file in which that
+    parameter was overwritten by hand"""
     case = {"kind": key, "ops": ops, "case_seed": case_seed}
+    if edge:
+        case["edge"] = list(edge)
     H = Harness(chk, E, key, tmp, case_seed)
     res_bits, same_tok, core_bits = [], [], []
     saved_double = False
@@ -240,6 +244,27 @@ def run_history(chk, E, key, ops, case_seed, tmp):
                     out[k] = None if v is None else (str(v.dtype), v.detach().reshape(-1).numpy().tobytes())
                 return out
             before_core = core_values(H.model)
+            edited = False
+            if edge or H.rng.random() < 0.4:
+                # parameter values written by hand, at the edge of their domain (a nearly degenerate or a very wide prior):
+                # the calls that follow must leave such a model untouched as well
+                try:
+                    with open(H.path) as fh:
+                        doc = json.load(fh)
+                    cand = [k for k in ("xi_std", "tau_std") if k in doc.get("parameters", {})]
+                    if cand:
+                        k = H.rng.choice(cand)
+                        new = H.rng.choice([5e-4, 2e-4, 9e-4, 250.0])
+                        if edge and edge[0] in cand:
+                            k, new = edge[0], float(edge[1])
+                        old_v = doc["parameters"][k]
+                        doc["parameters"][k] = [new] * len(old_v) if isinstance(old_v, list) else new
+                        with open(H.path, "w") as fh:
+                            json.dump(doc, fh)
+                        edited = True
+                        chk.tag("hand_written_edge_parameter", f"{k}={new}")
+                except Exception:  # noqa
+                    edited = False
             try:
                 with core.quiet():
                     H.model = E.BaseModel.load(H.path)
@@ -249,7 +274,7 @@ def run_history(chk, E, key, ops, case_seed, tmp):
             after_core = core_values(H.model)
             res_bits.append(A.has_residual(H.model))
             same_tok.append("-")
-            core_bits.append("?" if saved_double else int(before_core != after_core))
+            core_bits.append("?" if (saved_double or edited) else int(before_core != after_core))
             continue
         args = H.make_args(op, step)
         copy_model = None
@@ -390,9 +415,17 @@ def run(chk: core.Check):
         for key, *_ in KIND_CONFIGS:
             for _ in range(n_per_kind):
                 cases_in.append((key, gen_sequence(rng, key, rng.randrange(length - 3, length + 1)), rng.randrange(10 ** 6)))
+        cases_in = [c + (None,) for c in cases_in]
+        # hand-written parameter values at the edge of their domain, every read-only call afterwards
+        edge_kinds = [k[0] for k in KIND_CONFIGS] if chk.tier == "thorough" else ["logistic-src"] + rng.sample([k[0] for k in KIND_CONFIGS[1:]], 2)
+        for key in edge_kinds:
+            for par, val in ([("xi_std", 5e-4), ("tau_std", 5e-4)] if chk.tier == "thorough" or key == "logistic-src"
+                             else [rng.choice([("xi_std", 5e-4), ("tau_std", 2e-4), ("xi_std", 9e-4)])]):
+                ops = ["fit", "save", "load", "scipy", "est", "mean", "mode", "scipy"] + (["sim"] if key == "logistic-src" else [])
+                cases_in.append((key, ops, rng.randrange(10 ** 6), (par, val)))
         cases, patterns = [], []
-        for key, ops, cs in cases_in:
-            pat, case = run_history(chk, E, key, ops, cs, tmp)
+        for key, ops, cs, edge in cases_in:
+            pat, case = run_history(chk, E, key, ops, cs, tmp, edge=edge)
             cases.append(case)
             patterns.append(pat)
             nontriv = any(o in ("est", "mean", "mode", "scipy", "sim") and i > 0 for i, o in enumerate(ops))
@@ -414,7 +447,7 @@ def replay(chk: core.Check, payload):
         return
     tmp = tempfile.mkdtemp(prefix="c13_")
     try:
-        pat, c = run_history(chk, E, case["kind"], case["ops"], case["case_seed"], tmp)
+        pat, c = run_history(chk, E, case["kind"], case["ops"], case["case_seed"], tmp, edge=case.get("edge"))
         chk.case((case["kind"], tuple(case["ops"])), sample=c)
         compare(chk, [c], [pat])
     finally:
